@@ -81,6 +81,9 @@ FEW_KINDS = [None, 5, "abc", [1], {"a": 1}, JUNK]
 # text that is hostile to message formatting (str.format fields, % conversions, lone braces)
 HOSTILE = ["{x}", "{0}", "{0.a}", "%s", "%(a)s", "{", "}", "{0[a]}", "%"]
 KINDS += ["{x}", "%(a)s", {"{0.a}": 1}]
+# an integer beyond the range of an IEEE double (JSON text may carry any number of digits)
+HUGE = 10 ** 400
+KINDS += [HUGE]
 # property / key / type names at the edges of the naming rules
 ODD_NAMES = ["", "a", "_", "0", "1_2", "__", "-", "x" * 300]
 
@@ -262,6 +265,12 @@ def gen_slot_cases(run, desc):
                 sample = next(iter(dval.values())) if dval else "v"
                 for nm in (ODD_NAMES if thorough else rng.sample(ODD_NAMES, 2)):
                     cases.append(mk(subst=[[pth + [nm], sample]], allow_custom=rng.random() < 0.5))
+            # a huge integer at every position of an id-less 2.1 observable (its id is computed from the cleaned values)
+            if c.get("id_contrib") and "id" in base:
+                for pth in [[n] for n in top if n not in ("type", "id", "spec_version")] + [p for p, _ in dict_paths(base, [], 3)]:
+                    p2 = pth if len(pth) == 1 else pth + ["n"]
+                    cases.append(mk(subst=[[p2, HUGE]], drop=["id"]))
+                    cases.append(mk(subst=[[p2, -HUGE]], drop=["id"]))
             # a list value with one more element of another kind (a valid element followed by junk)
             for name in top:
                 if isinstance(base[name], list) and base[name]:
@@ -520,6 +529,39 @@ def gen_store_cases(run, desc):
         base = desc["classes"][key]["base"]
         for name in rng.sample(list(base.keys()), min(3, len(base))):
             out.append({"op": "store_add", "base": key, "subst": [[[name], rng.choice(KINDS)]], "pre": [good20]})
+    return out
+
+
+def gen_huge_number_cases(run, desc):
+    """an integer beyond the range of a double at every id-contributing position of every 2.1 observable given without
+    an id (the deterministic id is computed from the cleaned values, outside the property wrapper), through every entry
+    point; never sampled away"""
+    edk = "extension-definition--" + UUID4B
+    out = []
+    for key, c in desc["classes"].items():
+        if not (key.startswith("v21.observables.") and c.get("id_contrib") and "id" in c["base"]):
+            continue
+        base = c["base"]
+        variants = []
+        for name in c["id_contrib"]:
+            for h in (HUGE, -HUGE):
+                variants.append([[[name], h]])
+            if name == "extensions":
+                variants.append([[[name], {edk: {"extension_type": "property-extension", "n": HUGE}}]])
+                variants.append([[[name], {edk: {"extension_type": "property-extension", "n": [1, {"m": -HUGE}]}}]])
+            if isinstance(base.get(name), dict):
+                variants.append([[[name, "n"], HUGE]])
+            if isinstance(base.get(name), list):
+                variants.append([[[name], list(base[name]) + [HUGE]]])
+        for sub in variants:
+            for op in ("parse", "construct", "parse_observable", "dict_to_stix2"):
+                cse = {"op": op, "base": key, "subst": sub, "drop": ["id"] + (["_valid_refs"] if op == "parse_observable" else [])}
+                if op == "construct":
+                    cse["cls"] = key
+                if op == "parse_observable":
+                    cse["valid_refs"] = base.get("_valid_refs")
+                    cse["version"] = "2.1"
+                out.append(cse)
     return out
 
 
@@ -889,6 +931,9 @@ def classify(case, r, mset):
     """finding id of a non-family outcome: the unguarded site the model attributes it to (the function on the
     traceback must be that site's); without a model set, the exact signature of a witness's escape"""
     cls = r.get("cls")
+    if cls == "OverflowError" and (r.get("fn") or "").startswith("canonicalization."):
+        # float(huge int) in the canonicaliser, reached from _generate_id of an id-less 2.1 observable
+        return "C17-generate-id-huge-integer-overflowerror"
     if cls == "RecursionError":
         sites = [s for n, s in (mset or ()) if n == "RecursionError" and s and s != "lib"]
         if sites:
@@ -1023,7 +1068,8 @@ def check(run):
 
     cases = gen_slot_cases(run, desc) + gen_raw_cases(run) + gen_marking_cases(run, desc) + gen_store_cases(run, desc)
     ws = witnesses()
-    tail = [ws[t] for t in ws] + gen_deep_cases(run)       # witnesses and deep-nesting inputs are never sampled away
+    # witnesses, huge numbers at id-contributing positions and deep-nesting inputs are never sampled away
+    tail = [ws[t] for t in ws] + gen_huge_number_cases(run, desc) + gen_deep_cases(run)
     if run.tier != "thorough" and len(cases) > 13600:
         idx = sorted(run.rng.sample(range(len(cases)), 13600))      # keep the grouping by class (case-file headers)
         cases = [cases[i] for i in idx]
